@@ -487,6 +487,9 @@ func accessPath(v ssa.Value) string {
 	case *ssa.IndexAddr:
 		return accessPath(x.X) + "[" + accessPath(x.Index) + "]"
 	case *ssa.Alloc:
+		if x.Comment != "" {
+			return "alloc:" + x.Comment
+		}
 		return "alloc:" + x.Name()
 	}
 	return "val:" + v.Name()
@@ -603,4 +606,58 @@ func posOf(i ssa.Instruction) token.Pos {
 		}
 	}
 	return token.NoPos
+}
+
+// retVal returns the i-th result of a return, looking through the spill that go/ssa inserts in
+// functions with defers (`*t0 = v; rundefers; t1 = *t0; return t1`).
+func retVal(ret *ssa.Return, i int) ssa.Value {
+	v := ret.Results[i]
+	u, ok := v.(*ssa.UnOp)
+	if !ok || u.Op != token.MUL {
+		return v
+	}
+	al, ok := u.X.(*ssa.Alloc)
+	if !ok {
+		return v
+	}
+	b := ret.Block()
+	idx := instrIndex(u)
+	if u.Block() != b || idx < 0 {
+		return v
+	}
+	for k := idx - 1; k >= 0; k-- {
+		if st, ok := b.Instrs[k].(*ssa.Store); ok && st.Addr == al {
+			return st.Val
+		}
+	}
+	return v
+}
+
+// canon resolves a load of a single-assignment local cell (a variable captured by a closure)
+// to the value stored in it, and strips interface conversions / assertions.
+func canon(v ssa.Value) ssa.Value {
+	for i := 0; i < 8; i++ {
+		v = stripAsserts(v)
+		u, ok := v.(*ssa.UnOp)
+		if !ok || u.Op != token.MUL {
+			return v
+		}
+		al, ok := u.X.(*ssa.Alloc)
+		if !ok {
+			return v
+		}
+		var stored ssa.Value
+		n := 0
+		for _, ref := range *al.Referrers() {
+			if st, ok := ref.(*ssa.Store); ok && st.Addr == al {
+				n++
+				stored = st.Val
+			}
+		}
+		if n != 1 {
+			return v
+		}
+		v = stored
+	}
+	return v
 }
